@@ -40,6 +40,9 @@ class Gen:
 
     def string(self):
         r = self.r
+        if self.lang == "CPP" and r.random() < 0.2:
+            self.hit("expr:rawstr")
+            return r.choice(['R"(raw "q" text)"', 'LR"(wide raw)"', 'u8R"x(a )" b)x"', 'uR"(u16)"', 'UR"d(U32 \\n)d"', 'R"(two\nlines)"'])
         body = r.choice(["", "x", "hello world", "a\\n", "tab\\there", "%d %s", "q\\\"q", "it's", "  sp  ", "/* no */", "// no"])
         pre = r.choice(["", "", "", "L", "u8"]) if self.lang in ("C", "CPP") else ""
         return pre + '"' + body + '"'
@@ -325,6 +328,9 @@ class Gen:
         self.simple(2)
         self.emit(1, ["}"], "close")
         self.emit(1, ["int", "x", ",", "y", ";"])
+        # conversion operators, with a comment inside the type
+        self.emit(1, ["operator", "const", r.choice(["/* c */", ""]), "char", "*", "(", ")", "const", ";"])
+        self.emit(1, ["operator", "unsigned", r.choice(["/* u */", "// why\n", ""]), "long", "(", ")", ";"])
         self.emit(0, ["}", ";"], "close")
 
     def program(self, nfuncs=None):
